@@ -67,6 +67,23 @@ def rename_program(prog, old, new):
     return Program([(new if v == old else v, t, ren(a)) for v, t, a in prog.typedefs], ren(prog.init), ren(prog.guard), ren(prog.body))
 
 
+def float_in_probability_expression(text, detail):
+    """the known float finding seen through a choice probability: the deviating spelling has a probability block {...} (or a draw
+    parameter) in which a decimal literal stands next to an arithmetic operator - Polar evaluates such an expression in floating point
+    before converting it to a rational - AND the deviation is of rounding size (1e-12 relative)"""
+    from fractions import Fraction
+    if not re.search(r"\{[^{}\n]*\d\.\d+[^{}\n]*[-+*/][^{}\n]*\}|\{[^{}\n]*[-+*/][^{}\n]*\d\.\d+[^{}\n]*\}", text):
+        return False
+    m = re.search(r"polar=([-0-9/.e]+) reference=([-0-9/.e]+)", detail or "")
+    if not m:
+        return False
+    try:
+        a, b = Fraction(m.group(1)), Fraction(m.group(2))
+    except (ValueError, ZeroDivisionError):
+        return False
+    return abs(a - b) <= Fraction(1, 10 ** 12) * max(1, abs(b))
+
+
 def compound_numeric_probabilities(prog, rng):
     """numeric probabilities of choices (all but the last) rewritten as a sum / difference / product of two rationals with the
     same value ({1/4} -> {1/2 - 1/4}); the AST keeps the expression, so every spelling prints it"""
@@ -347,6 +364,8 @@ def run_positive(case, tier):
                 new = name.split("->")[1]
                 if new in ("pi", "e", "oo", "inf", "nan", "zoo"):
                     key = "identifier-read-as-CAS-constant"
+            if key is None and float_in_probability_expression(text, detail):
+                key = "float-literal-inside-distribution-parameter-expression-kept-as-double"
             res["violations"].append({"kind": kind, "key": key, "variant": name, "goal": P.monom_str(g),
                                       "detail": f"goal E({P.monom_str(g)}): spelling '{pats['ok'][0][0]}' is analysed correctly but '{name}' gives {detail}\n--- text of the deviating spelling:\n{text[:700]}"})
     # a spelling that is refused with an error while another one is analysed is not a C19 violation (the property
